@@ -158,12 +158,23 @@ def rule_p3(chk, prog):
     if i['rule'] in ('C15.3-depends-on-l-only', 'C15.6-shape-gate'):
       i['rule'] = 'C11.P3-filters-diagonal'
       keep.append(i)
+    elif i['rule'] == 'C15.2-mean-preserved':
+      i['rule'] = 'C11.P3m-filters-keep-mean'
+      keep.append(i)
   chk.instances[before:] = keep
   chk.violations[:] = [v for v in chk.violations if v in chk.instances]
   for r in list(chk.minimum):
     if r.startswith('C15.'):
       chk.minimum.pop(r)
   chk.at_least('C11.P3-filters-diagonal', 5)
+  chk.at_least('C11.P3m-filters-keep-mean', 2)
+
+
+def rule_p0(chk, prog):
+  """The clip itself: decided by the same rule as C02.5, filed here because P1 rests on it."""
+  from rules import c02
+  c02.clip_mask_rule(chk, prog, 'C11.P0-clip-mask')
+  chk.at_least('C11.P0-clip-mask', 4)
 
 
 INTEGRATORS = ['backward_forward_euler', 'crank_nicolson_rk2', 'semi_implicit_leapfrog', 'low_storage_runge_kutta_crank_nicolson', 'imex_runge_kutta']
@@ -362,6 +373,7 @@ def rule_clock(chk, prog):
 
 
 def run(chk, prog, tier):
+  rule_p0(chk, prog)
   rule_p1(chk, prog)
   rule_p2(chk, prog)
   rule_p3(chk, prog)
@@ -371,7 +383,7 @@ def run(chk, prog, tier):
   rule_clock(chk, prog)
   chk.note('outside the quantifier of C11: held_suarez.HeldSuarezForcing.explicit_terms returns an un-clipped temperature tendency, so an equation composed with it does not keep the '
            'top total wavenumber exactly zero')
-  chk.assume('Grid.clip_wavenumbers zeroes the top total wavenumber (decided under C02.5)', 'tree_math vectors combine pytrees leaf-wise and linearly',
+  chk.assume('tree_math vectors combine pytrees leaf-wise and linearly',
              'tableau weights sum to one (decided under C06.2)')
   return dict(
       explanation=('For every equation class the explicit tendency is abstractly interpreted with the Grid operators opaque and each returned field is required to be the '
